@@ -3531,6 +3531,15 @@ impl LuaCommandAdapter {
             .map(|s| RespFrame::bulk_string(s))
             .collect();
         
+        // Lazy expiry, as for a command sent directly
+        if let Some(RespFrame::BulkString(Some(name))) = frames.first() {
+            let command = String::from_utf8_lossy(name).to_uppercase();
+            self.executor.storage.expire_before_command(db_index, &command, frames.iter().skip(1).filter_map(|f| match f {
+                RespFrame::BulkString(Some(bytes)) => Some(bytes.as_slice()),
+                _ => None,
+            }));
+        }
+        
         let mut parsed = CommandParser::parse(&frames)?;
         parsed.db_override = Some(db_index);
         
